@@ -14,7 +14,9 @@
      Typed ty id    an error of user type number ty (target of errors.As), compared by (ty,id)
      Wrap1 tag e    fmt.Errorf("...%w", e): implements Unwrap() error; tag = identity of the wrapper
      Multi tag es   errors.Join(es...) or any type with Unwrap() []error (es may contain Nil for user types)
-     Stk tag es     *ers.Stack; tag = identity of the head object; es = the err fields of the chain of nodes
+     Stk tag n es   *ers.Stack; tag = identity of the object; n = its count field (maintained on the node Push is
+                    called on only: the nodes Push creates behind it have count 0, so an INNER layer — what
+                    Stack.Unwrap hands out — has n = 0 whatever it holds); es = the err fields of the chain of nodes
                     reached through .next, head first, EXCLUDING the zero-valued sentinel node {err:nil,next:nil}
                     with which every chain built from a zero Stack ends (Push copies (next,err) of the head into
                     a fresh node, so the zero node always stays last).  Hence  head.err = hd Nil es  and
@@ -31,7 +33,7 @@ Inductive err :=
 | Typed (ty id : Z)
 | Wrap1 (tag : Z) (e : err)
 | Multi (tag : Z) (es : list err)
-| Stk (tag : Z) (es : list err).
+| Stk (tag : Z) (n : Z) (es : list err).
 
 Definition is_nil (e : err) : bool := match e with Nil => true | _ => false end.
 
@@ -44,7 +46,7 @@ Definition same (a b : err) : bool :=
   | Typed t i, Typed t' j => (t =? t') && (i =? j)
   | Wrap1 g _, Wrap1 g' _ => g =? g'
   | Multi g _, Multi g' _ => g =? g'
-  | Stk g _, Stk g' _ => g =? g'
+  | Stk g _ _, Stk g' _ _ => g =? g'
   | _, _ => false
   end.
 
@@ -66,7 +68,7 @@ Definition stack_zero : stack := mkStack 0 [].        (* Stack{} *)
 Fixpoint push (e : err) (st : stack) : stack :=
   match e with
   | Nil => st
-  | Stk _ es => fold_left (fun s x => push x s) es st
+  | Stk _ _ es => fold_left (fun s x => push x s) es st
   | Multi _ es => fold_left (fun s x => push x s) es st
   | _ => mkStack (s_count st + 1) (e :: s_chain st)
   end.
@@ -81,7 +83,7 @@ Definition stack_len (st : stack) : Z := s_count st.
 Definition stack_resolve (tag : Z) (st : stack) : err :=
   if s_count st =? 0 then Nil
   else if s_count st =? 1 then hd Nil (s_chain st)
-  else Stk tag (s_chain st).
+  else Stk tag (s_count st) (s_chain st).
 
 (* func (e *Stack) Ok() bool { return e == nil || (e.err == nil && e.next == nil) } on a chain *)
 Definition chain_ok (es : list err) : bool :=
@@ -104,7 +106,7 @@ Definition join (tag : Z) (es : list err) : err := stack_resolve tag (stack_add 
 Definition ok (e : err) : bool :=
   match e with
   | Nil => true
-  | Stk _ es => chain_ok es
+  | Stk _ _ es => chain_ok es
   | _ => false
   end.
 
@@ -112,6 +114,39 @@ Definition ok (e : err) : bool :=
    ann = identity of the fresh errors.New value *)
 Definition wrap (tag ann : Z) (e : err) : err :=
   if ok e then Nil else join tag [e; Ptr ann].
+
+(* func Wrapf(err, tmpl, args...) is the same code with fmt.Errorf(tmpl, args...) (no %w: a fresh pointer error)
+   as the annotation, so it is [wrap] too. *)
+
+(* func IsError(err error) bool { return !Ok(err) } *)
+Definition is_error (e : err) : bool := negb (ok e).
+
+(* func RemoveOk(errs []error) []error: keeps errs[idx] when IsError(errs[idx]);
+   func Append(errs []error, es ...error) []error with errs = nil: the same loop *)
+Definition remove_ok (es : list err) : list err := filter is_error es.
+
+(* errors.Unwrap(err) / ers.Unwrap(err): calls Unwrap() error when the type has it, else nil.
+     *fmt.wrapError:  the wrapped error
+     *ers.Stack:      func (e *Stack) Unwrap() error { if e.next == nil || e.next.err == nil { return nil }; return e.next }
+                      e.next is the INNER layer: a *Stack of its own (identity tag) whose chain is the rest of the
+                      chain and whose count is 0 (Push created it as &Stack{next: e.next, err: e.err})
+     anything else (constants, pointer errors, Unwrap() []error types): nil *)
+Definition unwrap1 (tag : Z) (e : err) : err :=
+  match e with
+  | Wrap1 _ x => x
+  | Stk _ _ es =>
+      match es with
+      | [] => Nil                                       (* e.next == nil *)
+      | _ :: r => match r with
+                  | [] => Nil                           (* e.next is the sentinel: e.next.err == nil *)
+                  | y :: _ => if is_nil y then Nil else Stk tag 0 r
+                  end
+      end
+  | _ => Nil
+  end.
+
+(* func (e *Stack) Len() int on a value *)
+Definition value_len (e : err) : Z := match e with Stk _ n _ => n | _ => -1 end.
 
 (* ------------------------------------------------------------------ internal.Unwind (wrap.go) *)
 
@@ -127,7 +162,7 @@ Definition sparse (l : list err) : list err := filter (fun x => negb (is_nil x))
    The accumulator [out] is the prefix consed on here. *)
 Fixpoint unwind (e : err) : list err :=
   match e with
-  | Stk _ es => sparse (chain_unwind es)
+  | Stk _ _ es => sparse (chain_unwind es)
   | Wrap1 _ x => e :: unwind x
   | Multi _ es => sparse es
   | Nil => []
@@ -172,7 +207,7 @@ Fixpoint is_ (e : err) : bool :=
   | Const s => const_is s
   | Wrap1 _ x => if is_nil x then false else is_ x
   | Multi _ es => existsb is_ es
-  | Stk _ es => chain_is is_ es
+  | Stk _ _ es => chain_is is_ es
   | _ => false
   end.
 End GoIs.
@@ -230,7 +265,7 @@ Fixpoint as_ (e : err) : option err :=
   match e with
   | Wrap1 _ x => if is_nil x then None else as_ x
   | Multi _ es => first_as as_ es
-  | Stk _ es => chain_as as_ es
+  | Stk _ _ es => chain_as as_ es
   | _ => None
   end.
 End GoAs.
@@ -279,7 +314,7 @@ Definition coll_len (c : coll) : Z := stack_len c.
 
 (* func (ec *Collector) Resolve() error { lock; if ec.stack.Len() == 0 { return nil }; return &ec.stack } *)
 Definition coll_resolve (tag : Z) (c : coll) : err :=
-  if stack_len c =? 0 then Nil else Stk tag (s_chain c).
+  if stack_len c =? 0 then Nil else Stk tag (s_count c) (s_chain c).
 
 Definition coll_adds (c : coll) (es : list err) : coll := fold_left coll_add es c.
 
@@ -303,7 +338,10 @@ Inductive expr :=
 | XPanicErr (tag : Z) (x : expr)            (* ers.ParsePanic(x) with x an error *)
 | XPanicStr (tag : Z) (s : Z)               (* ers.ParsePanic("...") *)
 | XPanicErrs (tag : Z) (xs : list expr)     (* ers.ParsePanic([]error{...}) *)
-| XPanicOther (tag id : Z).                 (* ers.ParsePanic(<int>) *)
+| XPanicOther (tag id : Z)                  (* ers.ParsePanic(<int>) *)
+| XUnwrap (tag : Z) (x : expr)              (* errors.Unwrap(x) / ers.Unwrap(x): the inner layer; tag = its identity if new *)
+| XJoinRemoveOk (tag : Z) (xs : list expr)  (* ers.Join(ers.RemoveOk([]error{xs...})...) *)
+| XJoinAppend (tag : Z) (xs : list expr).   (* ers.Join(ers.Append(nil, xs...)...) *)
 
 (* fmt.Errorf("%w", nil) has no wrapped operand: it returns a plain *errors.errorString (trusted: fmt) *)
 Definition errorf (tag : Z) (v : err) : err := if is_nil v then Ptr tag else Wrap1 tag v.
@@ -323,13 +361,16 @@ Fixpoint eval (x : expr) : err :=
   | XMulti tag xs => Multi tag (map eval xs)
   | XJoin tag xs => join tag (map eval xs)
   | XWrap tag ann x => wrap tag ann (eval x)
-  | XStack tag xs => Stk tag (s_chain (stack_add stack_zero (map eval xs)))
-  | XStackPush tag xs => Stk tag (s_chain (fold_left (fun s v => push v s) (map eval xs) stack_zero))
+  | XStack tag xs => let st := stack_add stack_zero (map eval xs) in Stk tag (s_count st) (s_chain st)
+  | XStackPush tag xs => let st := fold_left (fun s v => push v s) (map eval xs) stack_zero in Stk tag (s_count st) (s_chain st)
   | XCollect tag xs => coll_resolve tag (coll_adds coll_zero (map eval xs))
   | XPanicErr tag x => parse_panic tag (PErr (eval x))
   | XPanicStr tag s => parse_panic tag (PStr s)
   | XPanicErrs tag xs => parse_panic tag (PErrs (map eval xs))
   | XPanicOther tag id => parse_panic tag (POther id)
+  | XUnwrap tag x => unwrap1 tag (eval x)
+  | XJoinRemoveOk tag xs => join tag (remove_ok (map eval xs))
+  | XJoinAppend tag xs => join tag (remove_ok (map eval xs))
   end.
 
 (* ------------------------------------------------------------------ observation helpers (used by Corr) *)
@@ -343,5 +384,5 @@ Definition eid (e : err) : Z :=
   | Typed _ id => id
   | Wrap1 g _ => g
   | Multi g _ => g
-  | Stk g _ => g
+  | Stk g _ _ => g
   end.
